@@ -117,6 +117,7 @@ pub fn exec(func: &str, a: &mut Args) -> String {
         }
         "epa2" => fu4::exec_epa2(a),
         "epa2c" => fu4::exec_epa2c(a),
+        "epa3" => fu4::exec_epa3(a),
         _ => "nofn".into(),
     }
 }
@@ -272,6 +273,7 @@ pub fn gen(r: &mut Rng, thorough: bool) -> Vec<(String, String)> {
         }
     }
     fu4::gen(r, thorough, &mut v);
+    fu4::gen3(r, thorough, &mut v);
     v
 }
 
@@ -658,6 +660,62 @@ pub mod fu4 {
         let (g1, g2) = (shape(k1, a1, b1), shape(k2, a2, b2));
         let c = crate::p2::query::details::contact_support_map_support_map(&pos12, &*g1, &*g2, 1.0);
         super::c03::two::fcontact(&c)
+    }
+    // ---- 3-D
+    use crate::p3::query::gjk::{self as gjk3, CSOPoint as Cso3, GJKResult as Res3, VoronoiSimplex as Vs3};
+    fn shape3(kind: usize, a: f64, b: f64, c: f64) -> Box<dyn crate::p3::shape::SupportMap> {
+        if kind == 0 { Box::new(crate::p3::shape::Cuboid::new(d3::Vector::new(a, b, c))) } else { Box::new(crate::p3::shape::Ball::new(a)) }
+    }
+    /// `epa3`: `EPA::closest_points` of parry3d on a given start simplex.
+    /// args: kind1 a1 b1 c1 kind2 a2 b2 c2 pos12 n (orig1 orig2){n}
+    pub fn exec_epa3(a: &mut Args) -> String {
+        let (k1, a1, b1, c1) = (a.u(), a.f(), a.f(), a.f()); let (k2, a2, b2, c2) = (a.u(), a.f(), a.f(), a.f());
+        let pos12 = d3::iso(a); let n = a.u();
+        let (g1, g2) = (shape3(k1, a1, b1, c1), shape3(k2, a2, b2, c2));
+        let mut sx = Vs3::new();
+        for i in 0..n {
+            let o1 = d3::p(a); let o2 = d3::p(a);
+            let pt = Cso3::new(o1, o2);
+            if i == 0 { sx.reset(pt); } else if !sx.add_point(pt) { return "degenerate-simplex".into(); }
+        }
+        let mut epa = crate::p3::query::epa::EPA::new();
+        match epa.closest_points(&pos12, &*g1, &*g2, &sx) {
+            None => "none".into(),
+            Some((p1, p2, nn)) => format!("{} {} {}", d3::fp(&p1), d3::fp(&p2), d3::fv(&nn)),
+        }
+    }
+    pub fn gen3(r: &mut Rng, thorough: bool, v: &mut Vec<(String, String)>) {
+        let n = if thorough { 6000 } else { 600 };
+        let mut fam = [0usize; 4];
+        for it in 0..n {
+            let lat = it % 2 == 0;
+            let (k1, k2) = match r.below(6) { 0 => (0, 1), 1 => (1, 0), 2 => (1, 1), _ => (0, 0) };
+            let he = |r: &mut Rng| if lat { *r.pick(&[0.25, 0.5, 1.0, 1.5, 2.0, 3.0]) } else { r.logu(0.05, 20.0) };
+            let (a1, b1, c1, a2, b2, c2) = (he(r), he(r), he(r), he(r), he(r), he(r));
+            let (g1, g2) = (shape3(k1, a1, b1, c1), shape3(k2, a2, b2, c2));
+            let ext = |k: usize, a: f64, b: f64, c: f64| if k == 0 { d3::Vector::new(a, b, c) } else { d3::Vector::new(a, a, a) };
+            let hs = ext(k1, a1, b1, c1) + ext(k2, a2, b2, c2);
+            let f = |r: &mut Rng| if lat { *r.pick(&[-0.75, -0.5, -0.25, 0.0, 0.0, 0.25, 0.5, 0.75, 1.0]) } else { r.uniform(-1.0, 1.0) };
+            let t = d3::Vector::new(hs.x * f(r), hs.y * f(r), hs.z * f(r));
+            let mut pos12 = d3::gen_iso(r, lat, 1.0);
+            if lat && r.below(3) != 0 { pos12 = d3::Isometry::identity(); }
+            pos12.translation.vector = t;
+            let sh = format!("{} {} {} {} {} {} {} {}", k1, hx(a1), hx(b1), hx(c1), k2, hx(a2), hx(b2), hx(c2));
+            let dir = d3::na::Unit::try_new(pos12.translation.vector, f64::EPSILON).unwrap_or(d3::Vector::x_axis());
+            let mut sx = Vs3::new();
+            sx.reset(Cso3::from_shapes(&pos12, &*g1, &*g2, &dir));
+            if let Res3::Intersection = gjk3::closest_points(&pos12, &*g1, &*g2, 1.0, true, &mut sx) {
+                let pts: Vec<Cso3> = (0..sx.dimension() + 1).map(|i| *sx.point(i)).collect();
+                let mut chk = Vs3::new(); let mut ok = true;
+                for (i, p) in pts.iter().enumerate() { if i == 0 { chk.reset(*p); } else if !chk.add_point(*p) { ok = false; } }
+                if !ok { continue; }
+                fam[sx.dimension()] += 1;
+                let mut s = format!("{} {} {}", sh, d3::hiso(&pos12), pts.len());
+                for p in &pts { s += &format!(" {} {}", d3::hp(&p.orig1), d3::hp(&p.orig2)); }
+                v.push(("epa3".into(), s));
+            }
+        }
+        if std::env::var("VERIF_DBG").is_ok() { eprintln!("C02 epa3 families: gjk-dim0={} dim1={} dim2={} dim3={}", fam[0], fam[1], fam[2], fam[3]); }
     }
     fn emit(v: &mut Vec<(String, String)>, sh: &str, pos12: &Iso2, pts: &[Cso2]) {
         let mut sx = Vs2::new();
